@@ -1,14 +1,23 @@
 import Rv.Model.Hex
 import Rv.Model.StreamTo
+import Rv.Model.ResultStream
 /-!
-Driver for the `streamto` correspondence suite of C29 (harness/stream).
+Driver for the `streamto` and `e2e` correspondence suites of C29 (harness/stream).
 
 `st <B> <budget|-> <over> <hex>`  — one `streamTo` call of the model on the byte stream
 with a writer that accepts `budget` bytes (`-`: never fails); answer
 `<n> <err> <clean> <consumed|-> <written hex>` (consumed only when clean).
 `!st <B> <hex>` — oracle line, answered from the specification `specReply`.
+
+`e2e <entry> <ncmd> <hex> <b:o,b:o,…>` — DoStream / DoMultiStream of `ncmd` commands entered
+through `entry` (ok | ctxDone | flushErr | closing); `hex` is everything the server sends on
+the streaming connection; one `budget:over` writer per `WriteTo` call. Answered from
+`Rv.ResultStream.session`: per call `n/err/written/hasNext`, the sticky error, the pool
+summary derived from the event log (held | stored | closed | dead) and which connection
+serves the next DoStream.
+`!next <id>` — oracle line: the next streaming command receives its own payload.
 -/
-open Rv Rv.StreamTo
+open Rv Rv.StreamTo Rv.ResultStream
 
 def showOut (total : Nat) (o : Out) : String :=
   toString o.n ++ " " ++ o.err.show ++ " " ++ toString o.clean ++ " " ++
@@ -17,8 +26,68 @@ def showOut (total : Nat) (o : Out) : String :=
 def parseBudget (s : String) : Option (Option Nat) :=
   if s == "-" then some none else s.toNat?.map some
 
+def stickyShow : Option SErr → String
+  | none => "none"
+  | some .eof => "sticky:io-or-eof"
+  | some .ctx => "sticky:ctx"
+  | some .pipe => "sticky:pipe"
+  | some (.stream e) => if e.show == "err:io" then "sticky:io-or-eof" else "sticky:" ++ e.show
+
+def callShow (c : CallRes) (sticky : Bool) : String :=
+  let e := match c.err with
+    | none => if sticky then "none" else "ok"
+    | some (.stream x) => if sticky then stickyShow c.err else x.show
+    | some _ => stickyShow c.err
+  toString c.n ++ "/" ++ e ++ "/" ++ Hex.encode c.out ++ "/" ++ toString c.hasNext
+
+def parseCall (s : String) : Option (Option Nat × Nat) :=
+  match s.splitOn ":" with
+  | [b, o] => match parseBudget b, o.toNat? with
+    | some k, some ov => some (k, ov)
+    | _, _ => none
+  | _ => none
+
+def parseEntry (s : String) : Option Entry :=
+  if s == "ok" then some .ok else if s == "ctxDone" then some .ctxDone
+  else if s == "flushErr" then some .flushErr else if s == "closing" then some .closing else none
+
+def poolShow (k : Entry) (log : List Ev) : String :=
+  if countStore log = 0 then "held"
+  else if countStore log > 1 then "double-store"
+  else if log.contains .close || log.contains .connClose then "closed"
+  else if k == .ctxDone then "dead"
+  else "stored"
+
+/-- replay the session once more to know, per call, whether it was answered from the sticky error -/
+def stickyFlags : RS → List SO → List Bool
+  | _, [] => []
+  | s, o :: os => (s.e.isSome || !(decide (s.n > 0))) :: stickyFlags (writeTo s o).1 os
+
+def e2e (k : Entry) (ncmd : Nat) (bs : List UInt8) (calls : List (Option Nat × Nat)) : String :=
+  let s0 := start k ncmd
+  let (s, _, rs) := session 524288 s0 bs calls []
+  -- which calls were sticky: recompute along the session
+  let rec flags (s : RS) (bs : List UInt8) (cs : List (Option Nat × Nat)) : List Bool :=
+    match cs with
+    | [] => []
+    | (b, ov) :: cs =>
+      if s.e.isSome || !(decide (s.n > 0)) then true :: flags s bs cs
+      else
+        let o := run 524288 ⟨b, ov, []⟩ bs
+        false :: flags (afterStream s ⟨o.n, o.err, o.clean⟩) o.rest cs
+  let fl := flags s0 bs calls
+  let shown := (rs.zip fl).map fun (c, f) => callShow c f
+  let pool := poolShow k s.log
+  ";".intercalate shown ++ " e=" ++ stickyShow s.e ++ " pool=" ++ pool ++ " next=" ++
+    (if pool == "held" then "-" else if pool == "stored" then "same" else "new")
+
 def step (_ : Unit) (ws : List String) : Unit × String :=
   match ws with
+  | ["!next", _] => ((), "own")
+  | ["e2e", en, nc, h, cs] =>
+    match parseEntry en, nc.toNat?, Hex.decode h, (cs.splitOn ",").mapM parseCall with
+    | some k, some n, some bs, some calls => ((), e2e k n bs calls)
+    | _, _, _, _ => ((), "bad-op")
   | ["st", b, bud, ov, h] =>
     match b.toNat?, parseBudget bud, ov.toNat?, Hex.decode h with
     | some B, some k, some o, some bs => ((), showOut bs.length (run B ⟨k, o, []⟩ bs))
